@@ -37,6 +37,9 @@ type C12Case struct {
 	// SignFault: signing the answer cannot work ("mismatch": the storage hands out a certificate of another key; "sha512": the
 	// configured algorithm is one the assertion signer does not implement): no user data may leave then
 	SignFault string `json:"sign_fault,omitempty"`
+	// StaleFirstRead: the first user lookup of the request is answered by a stale replica (another user's row, a revoked
+	// attribute) and fails; a second lookup - should the IdP make one - succeeds
+	StaleFirstRead bool `json:"stale_first_read,omitempty"`
 }
 
 func genC12Case(t *rapid.T) C12Case {
@@ -163,6 +166,7 @@ func genC12Case(t *rapid.T) C12Case {
 	q.DestPrefixed = c.DestKind != "absent" && rapid.IntRange(0, 3).Draw(t, "destprefixed") == 0
 	c.Query = q
 	c.Noise = rapid.IntRange(0, 2).Draw(t, "noise") == 0
+	c.StaleFirstRead = rapid.IntRange(0, 7).Draw(t, "stalefirst") == 0
 	if rapid.IntRange(0, 7).Draw(t, "signfault") == 0 {
 		c.SignFault = rapid.SampledFrom([]string{"mismatch", "sha512", "nokey"}).Draw(t, "signfaultkind")
 	}
@@ -279,8 +283,15 @@ func c12Run(c C12Case) c12Outcome {
 	if c.Noise {
 		runNoise(w, wspec)
 	}
+	var faults []world.Fault
 	if c.SignFault == "mismatch" || c.SignFault == "nokey" {
-		w.Store.SetFaults([]world.Fault{{Op: "GetResponseSigningKey", Occurrence: 0, Kind: c.SignFault}})
+		faults = append(faults, world.Fault{Op: "GetResponseSigningKey", Occurrence: 0, Kind: c.SignFault})
+	}
+	if c.StaleFirstRead {
+		faults = append(faults, world.Fault{Op: "SetUserinfoWithLoginName", Occurrence: 1, Kind: "stale"})
+	}
+	if len(faults) > 0 {
+		w.Store.SetFaults(faults)
 	}
 	now := time.Now()
 	hr := c12Render(c, now)
@@ -417,14 +428,18 @@ func c12Run(c C12Case) c12Outcome {
 	}
 	// content
 	calls := w.Store.CallsOf("SetUserinfoWithLoginName")
-	if len(calls) != 1 {
-		add("userinfo-calls", "SetUserinfoWithLoginName called %d times", len(calls))
+	if len(calls) < 1 {
+		add("userinfo-calls", "user data disclosed although SetUserinfoWithLoginName was never called")
 		return out
 	}
-	if !hasSubject || calls[0].Args[0] != subject {
-		add("subject-passed-to-storage", "storage was asked for %q, the query's subject is %q (present %v)", calls[0].Args[0], subject, hasSubject)
+	// an IdP may ask more than once (a retry): every lookup is for the query's subject, and the answer is the record the
+	// storage resolved - the last successful lookup
+	for _, cl := range calls {
+		if !hasSubject || cl.Args[0] != subject {
+			add("subject-passed-to-storage", "storage was asked for %q, the query's subject is %q (present %v)", cl.Args[0], subject, hasSubject)
+		}
 	}
-	u, ok := w.Store.UserByLogin(calls[0].Args[0])
+	u, ok := w.Store.UserByLogin(calls[len(calls)-1].Args[0])
 	if !ok {
 		add("disclosure-for-unknown-user", "storage knows no user %q", calls[0].Args[0])
 		return out
